@@ -6,7 +6,13 @@ HERE = os.path.dirname(os.path.dirname(os.path.abspath(__file__)))
 ALL = ['C%02d' % i for i in range(1, 21)]
 
 # property -> (level, text, note, technique)
+PBT = 'property-based testing (Hypothesis, stratified over class x purge x backend family): generated histories executed against the real decorators; '
 CHECKS = {
+    'C01': ('exploration', 'every call result compared type-exactly with the undecorated reference function over generated histories with management ops, all 12 classes, info-preserving keymaps + defaults, 18 backends', 'generated functions are deterministic and equality-respecting; codec value domains computed per backend; listed exclusions', PBT + 'differential oracle (undecorated function)'),
+    'C02': ('exploration', 'per-call compute-once predicate from observed pre-state + derived at-most-once-per-key clause with an archive attached; incl. re-decoration, re-open and forked sessions', 'pre-state observed via f.__cache__() and archive snapshots; bounded histories', PBT + 'per-step predicate over observed pre-state and evaluation log'),
+    'C06': ('exploration', 'independent recency/frequency model decides the exact LRU/MRU victim and the LFU/RR validity predicate after every overflow; thorough tier adds a bounded-exhaustive sweep of all 5^7 histories x 48 configs', 'usage model rebuilt from observed resident sets only; bulk load() excluded (no usage record)', PBT + 'reference policy model; bounded-exhaustive enumeration in the thorough tier'),
+    'C07': ('exploration', 'after every call: victims are in the archive with the same value, archive monotone, every computed result retrievable; 12 archive backends', 'alias-free keys for dir archives; archive contents read through __asdict__', PBT + 'history invariant oracle over archive snapshots'),
+    'C15': ('exploration', 'per-call ground truth for hit/miss/load from the observed pre-state and the evaluation log; resets; size/maxsize fields; raising calls', 'f.key() identifies the call (checked separately by C18)', PBT + 'per-step ground-truth oracle'),
     'C05': ('exploration',
             'generated histories over all 12 decorator classes x maxsize spellings (positional/keyword, 0, None, 1..6) x purge x 18 backends; per-call size predicate taken from the property statement; finds violations, cannot prove absence',
             'sizes observed via len(f.__cache__()) and f.info().size; bounded history length (<=60 ops) and pool size (<=8 keys)',
